@@ -615,6 +615,11 @@ def _own_break_continue(loop):
 
 def _tuple_index(sl, flds):
     """the position a constant subscript reads of a packed tuple with the positions `flds` (None: not one)"""
+    if isinstance(sl, ast.Constant) and isinstance(sl.value, str):
+        return sl.value if sl.value in flds else None      # (a dict display read by a constant key)
+    if isinstance(sl, ast.Constant) and isinstance(sl.value, int) and not isinstance(sl.value, bool) and \
+       sl.value in flds and not all(isinstance(k_, int) and 0 <= k_ < len(flds) for k_ in flds):
+        return sl.value
     if isinstance(sl, ast.UnaryOp) and isinstance(sl.op, ast.USub) and isinstance(sl.operand, ast.Constant) and \
        isinstance(sl.operand.value, int) and not isinstance(sl.operand.value, bool):
         i = len(flds) - sl.operand.value
@@ -976,6 +981,13 @@ def _scalarise_records(ctx, node):
             elif isinstance(v, ast.Tuple) and v.elts and not any(isinstance(x, ast.Starred) for x in v.elts):
                 # a tuple packed once and only read by position is the same thing
                 recs[nm] = (sts[0], dict(enumerate(v.elts)))
+            elif isinstance(v, ast.Dict) and v.keys and all(
+                    isinstance(k_, ast.Constant) and isinstance(k_.value, (str, int)) and not isinstance(k_.value, bool) for k_ in v.keys):
+                # ... and so is a dict display with constant keys that is only read by constant key
+                recs[nm] = (sts[0], {k_.value: x_ for k_, x_ in zip(v.keys, v.values)})
+            elif isinstance(v, ast.Call) and isinstance(v.func, ast.Name) and v.func.id == 'dict' and not v.args and v.keywords and \
+                    all(k_.arg is not None for k_ in v.keywords):
+                recs[nm] = (sts[0], {k_.arg: k_.value for k_ in v.keywords})
     if not recs:
         return
     alias = {nm: nm for nm in recs}
@@ -1143,7 +1155,12 @@ def flatten(ctx, func, depth=3):
     _chain_attr_alias(node)
     _inplace_attr_alias(node)
     _scalarise_objects(ctx, node, fl.counter)
-    _scalarise_records(ctx, node)
+    for _round in range(3):         # (records of records: a dict of dicts of arrays)
+        before_ = ast.dump(node)
+        _scalarise_tables(node)
+        _scalarise_records(ctx, node)
+        if ast.dump(node) == before_:
+            break
     _propagate_self_aliases(node)
     _fold_const_getattr(node)
     ast.fix_missing_locations(node)
